@@ -424,6 +424,11 @@ class Recorder:
         self.events.append({'e': 'sets', 'pp': [v['pp'] for v in b]})
         self.events.append({'e': 'fit', 'fits': [v['fits'] for v in b]})
         self.events.append({'e': 'compare', 'cmps': [v['cmps'] for v in b]})
+        if rc['routine'] == 'crossval' and rc['cv'] == 'kfoldpat' and b[0]['nc'] is None:
+            # no fold was evaluated: no ceiling call at all
+            b[0]['nc'] = {'kind': 'loofolds', 'rows': [S.dec('subj', x) for x in self.world.data.rdm_descriptors['subj']],
+                          'conds': [S.dec('cond', x) for x in self.world.data.pattern_descriptors['cond']],
+                          'by': 'index', 'folds': [], 'lo': [], 'hi': [], 'vok': 1}
         self.events.append({'e': 'ceiling', 'ncs': [v['nc'] if v['nc'] is not None else
                                                      {'kind': 'none', 'rows': [], 'conds': [], 'by': '', 'folds': [],
                                                       'lo': NANVAL, 'hi': NANVAL} for v in b]})
@@ -817,7 +822,8 @@ def replay_behaviour(rec_json, const, flavour, mode, method, fitmode, seed, thet
         bad.append((f'{key}/{name}', detail))
     world = World(nr, nc, flavour, mode, seed, kinds_for(rc, theta_supplied), theta_supplied or rc['cv'] != 'none')
     draws, perms = forced_from_log(rc, rec_json['log'])
-    use_corr = rc['nCv'] > 1 and (seed % 2 == 0)
+    # eval_dual_bootstrap_random cannot run without the correction (probed separately by the check)
+    use_corr = rc['nCv'] > 1 and (seed % 2 == 0 or rc['routine'] == 'dualrand')
     try:
         with Recorder(world, rc, method, draws=draws, perms=perms) as rec:
             res = call_routine(rec, world, rc, method, fitmode, use_correction=use_corr)
@@ -940,7 +946,10 @@ def replay_behaviour(rec_json, const, flavour, mode, method, fitmode, seed, thet
             if n_spec['kind'] == 'loofolds':
                 want = nc_expected(world, method, n_spec)
                 a = np.asarray(res.noise_ceiling, dtype=float)
-                if a.shape != (2, len(n_spec['folds'])) or not close(a[0], want[0]) or not close(a[1], want[1]):
+                if len(n_spec['folds']) == 0:
+                    if a.size:
+                        viol('d/ceiling-value', {'key': k, 'stored': a, 'denoted': want})
+                elif a.shape != (2, len(n_spec['folds'])) or not close(a[0], want[0]) or not close(a[1], want[1]):
                     viol('d/ceiling-value', {'key': k, 'stored': a, 'denoted': want})
                 continue
             if st is None:
@@ -1056,7 +1065,7 @@ def random_run(rc, const, flavour, mode, method, fitmode, seed, theta_supplied=T
     nr, nc = const['NR'], const['NC']
     name = public_name(rc)
     bad = []
-    use_corr = rc['nCv'] > 1 and (seed % 3 != 0)
+    use_corr = rc['nCv'] > 1 and (seed % 3 != 0 or rc['routine'] == 'dualrand')
     np_seed = (seed * 7919 + 13) % (2 ** 31 - 1)
     try:
         world, rec, res = run_once(rc, const, flavour, mode, method, fitmode, seed, theta_supplied, use_corr, np_seed)
@@ -1119,7 +1128,10 @@ def random_run(rc, const, flavour, mode, method, fitmode, seed, theta_supplied=T
             for x in e['ncs']:
                 if x['kind'] == 'loofolds':
                     a = np.asarray(res.noise_ceiling, dtype=float)
-                    if a.shape != (2, len(x['lo'])) or not close(a[0], x['lo']) or not close(a[1], x['hi']):
+                    if len(x['lo']) == 0:
+                        if a.size:
+                            bad.append((f'd/ceiling-value/{name}', {'stored': a, 'events': []}))
+                    elif a.shape != (2, len(x['lo'])) or not close(a[0], x['lo']) or not close(a[1], x['hi']):
                         bad.append((f'd/ceiling-value/{name}', {'stored': a, 'events': [x['lo'], x['hi']]}))
     # clause g
     if rerun:
